@@ -119,6 +119,11 @@ func (e *Engine) call(f *frame, st *State, instr ssa.Value, cc *ssa.CallCommon, 
 				return e.staticCall(f, st, fn, append([]Val{*recv.Known}, args...), nil, rt, pos, cc)
 			}
 		}
+		if e.OwnCheck && (cc.Method.Name() == "DeepCopyMessage" || cc.Method.Name() == "DeepCopyDataType") {
+			if v, ok := e.ownSummary(f, st, cc.Method.Name(), cc.Value.Type(), append([]Val{recv}, args...), rt, pos); ok {
+				return v
+			}
+		}
 		e.oblige(st, "nil", "", e.C.Not(e.C.Eq(recv.Terms[0], e.C.IntLit(0))), pos, "method call on nil interface")
 		key := typeStr(cc.Value.Type()) + "." + cc.Method.Name()
 		if m, ok := invokeModels[key]; ok {
@@ -211,6 +216,11 @@ func (e *Engine) staticCall(f *frame, st *State, fn *ssa.Function, args []Val, b
 	name := fn.String()
 	if fn.Synthetic != "" && fn.Blocks == nil && fn.Origin() != nil {
 		fn = fn.Origin()
+	}
+	if e.OwnCheck && ownFamilyName(fn) != "" {
+		if v, ok := e.ownSummary(f, st, fn.Name(), nil, args, rt, pos); ok {
+			return v
+		}
 	}
 	if m, ok := callModels[name]; ok {
 		e.UsedModels[name] = true
@@ -382,6 +392,7 @@ func (e *Engine) appendModel(f *frame, st *State, cc *ssa.CallCommon, args []Val
 	c := e.C
 	s, t := args[0], args[1]
 	el := types.Unalias(rt).Underlying().(*types.Slice).Elem()
+	e.ownBulk(st, el, t, isString(cc.Args[1].Type()), pos, "append")
 	var n *smt.Term
 	tIsString := isString(cc.Args[1].Type())
 	if tIsString {
@@ -466,6 +477,7 @@ func (e *Engine) copyModel(f *frame, st *State, cc *ssa.CallCommon, args []Val, 
 	}
 	n = c.Ite(c.Op("bvsle", smt.Bool, dst.Terms[2], srcLen), dst.Terms[2], srcLen)
 	e.frameCheckRef(f, st, dst.Terms[0], "elem:"+typeStr(el), pos)
+	e.ownBulk(st, el, src, srcIsString, pos, "copy")
 	for k, so := range e.comps(el) {
 		name := elemName(el, k)
 		as := smt.Array(smt.BV(64), so)
@@ -559,4 +571,17 @@ func topFrame(f *frame) *frame {
 		f = f.parent
 	}
 	return f
+}
+
+// ownBulk: bulk copies (copy, append) of reference-typed elements would share them; allowed only from fresh arrays.
+func (e *Engine) ownBulk(st *State, el types.Type, src Val, srcIsString bool, pos, what string) {
+	if !e.OwnCheck || e.quiet > 0 || srcIsString {
+		return
+	}
+	refs, _ := e.refComps(el, 0, "")
+	if len(refs) == 0 {
+		return
+	}
+	c := e.C
+	e.oblige(st, "own", "", c.Or(c.Eq(src.Terms[2], c.BVLit64(0, 64)), e.isFresh(src.Terms[0])), pos, what+" of reference-typed elements copies them shallowly (shares them with the original)")
 }
